@@ -56,9 +56,13 @@ func c07Extra(c *Ctx, w *prove.World, scope []*ssa.Function, inScope map[*ssa.Fu
 					}
 					construct := fname + ": " + ai.render(x.Pos(), x.String())
 					c.guard("alloc", construct, pos, func() {
-						o := w.AllocBound(x.Len, x, inputs)
+						es := int64(1)
+						if sl, ok := x.Type().Underlying().(*types.Slice); ok {
+							es = p.Pkgs[0].TypesSizes.Sizeof(sl.Elem())
+						}
+						o := w.AllocBoundSized(x.Len, x, inputs, es)
 						if o.Proved && x.Cap != x.Len {
-							o = w.AllocBound(x.Cap, x, inputs)
+							o = w.AllocBoundSized(x.Cap, x, inputs, es)
 						}
 						emit(r, "alloc", construct, pos, o)
 					})
